@@ -11,8 +11,9 @@ For a configuration (seeded data + model, backend) and an operation:
     and `run_case` (Model/Atomic.v) is evaluated inside Coq on the operation's regenerated
     trace with the oracle and the fault, and must predict failure at that site and the same
     per-field changed/unchanged pattern;
-  * later results: predict() (+ one more operation) on the failed linker vs a reference linker
-    that never made the failed call.
+  * later results: predict(), one more inference operation and a cache-sensitive sequence
+    (compute_tf_table or register_term_frequency_lookup, then predict() again) on the failed
+    linker vs a reference linker that never made the failed call.
 User-level failures (no pairs, both m and u fixed, inconsistent recall, records lacking
 columns, bad label column ...) are single observed runs that raise by themselves.
 """
@@ -22,7 +23,7 @@ import json
 import math
 import os
 import sys
-import threading
+import tempfile
 import time
 
 import pandas as pd
@@ -32,11 +33,12 @@ from harness.common import Ctx, REPO, coq_bool, coq_list, coq_nat, coq_Z
 from translators import c08_effects as T
 
 FIELDS = T.FIELDS
-LOOSE = {"FPrior", "FLevelMU", "FLevelTrained", "FLevelOther", "FCoreModel", "FSessions", "FOther"}
+LOOSE = {"FPrior", "FLevelMU", "FLevelTrained", "FLevelOther", "FCoreModel", "FSessions", "FOther", "FCache"}
 LEAK_NAME = {"FBlockingRules": "blocking_rules", "FRetainMatching": "retain_flags", "FRetainIntermediate": "retain_flags",
              "FComparisons": "core_model_settings", "FPrior": "core_model_settings", "FCoreModel": "core_model_settings",
              "FLevelMU": "core_model_settings", "FLevelTrained": "trained_values", "FLevelOther": "core_model_settings",
-             "FLinkType": "link_type", "FSessions": "training_sessions", "FOther": "other_settings"}
+             "FLinkType": "link_type", "FSessions": "training_sessions", "FOther": "other_settings",
+             "FCache": "registered_cache_entries"}
 
 
 class InjectedFault(RuntimeError):
@@ -44,45 +46,87 @@ class InjectedFault(RuntimeError):
 
 
 # ------------------------------------------------------------------------------------------
-# API wrappers: count / observe / fail at the method that executes SQL
-def make_api_class(base):
-    class FaultAPI(base):
-        def __init__(self, *a, **k):
-            self._c08_n = 0
-            self._c08_fail_at = None
-            self._c08_obs = None
-            self._c08_armed = False
-            super().__init__(*a, **k)
+# API wrappers: count / observe / fail wherever SQL is executed.  DuckDB: the API's
+# _execute_sql_against_backend.  SQLite: every cursor of the connection (the API method, the
+# dataframe's direct cursor use in as_record_dict / drop, pandas' to_sql / read_sql).
+def _hook(api, sql):
+    if not getattr(api, "_c08_armed", False):
+        return
+    api._c08_n += 1
+    if api._c08_obs is not None:
+        api._c08_obs.on_sql(api._c08_n, str(sql))
+    if api._c08_fail_at is not None and api._c08_n == api._c08_fail_at:
+        api._c08_fail_at = None
+        raise InjectedFault(f"injected backend failure at statement {api._c08_n}")
 
-        def _execute_sql_against_backend(self, final_sql):
-            if self._c08_armed:
-                self._c08_n += 1
-                if self._c08_obs is not None:
-                    self._c08_obs.on_sql(self._c08_n, final_sql)
-                if self._c08_fail_at is not None and self._c08_n == self._c08_fail_at:
-                    self._c08_fail_at = None
-                    raise InjectedFault(f"injected backend failure at statement {self._c08_n}")
-            return super()._execute_sql_against_backend(final_sql)
-    return FaultAPI
+
+def _init_hook(api):
+    api._c08_n = 0
+    api._c08_fail_at = None
+    api._c08_obs = None
+    api._c08_armed = False
 
 
 _API = {}
 
 
 def api_class(backend):
-    if backend not in _API:
-        if backend == "duckdb":
-            from splink import DuckDBAPI
-            _API[backend] = make_api_class(DuckDBAPI)
-        else:
-            from splink.internals.sqlite.database_api import SQLiteAPI
-            _API[backend] = make_api_class(SQLiteAPI)
+    if backend in _API:
+        return _API[backend]
+    if backend == "duckdb":
+        from splink import DuckDBAPI
+
+        class FaultDuckDBAPI(DuckDBAPI):
+            def __init__(self, *a, **k):
+                _init_hook(self)
+                super().__init__(*a, **k)
+
+            def _execute_sql_against_backend(self, final_sql):
+                _hook(self, final_sql)
+                return super()._execute_sql_against_backend(final_sql)
+        _API[backend] = FaultDuckDBAPI
+    else:
+        import sqlite3
+        from splink.internals.sqlite.database_api import SQLiteAPI
+
+        class HookCursor(sqlite3.Cursor):
+            def execute(self, sql, *a):
+                _hook(getattr(self.connection, "_c08_api", None), sql)
+                return super().execute(sql, *a)
+
+            def executemany(self, sql, *a):
+                _hook(getattr(self.connection, "_c08_api", None), sql)
+                return super().executemany(sql, *a)
+
+            def executescript(self, sql):
+                _hook(getattr(self.connection, "_c08_api", None), sql)
+                return super().executescript(sql)
+
+        class HookConnection(sqlite3.Connection):
+            def cursor(self, factory=None):
+                return super().cursor(factory or HookCursor)
+
+        class FaultSQLiteAPI(SQLiteAPI):
+            def __init__(self, *a, **k):
+                _init_hook(self)
+                con = sqlite3.connect(":memory:", factory=HookConnection)
+                con._c08_api = self
+                super().__init__(con)
+
+            def _execute_sql_against_backend(self, final_sql):
+                _hook(self, final_sql)
+                armed, self._c08_armed = self._c08_armed, False     # Connection.execute may or may not go through cursor()
+                try:
+                    return super()._execute_sql_against_backend(final_sql)
+                finally:
+                    self._c08_armed = armed
+        _API[backend] = FaultSQLiteAPI
     return _API[backend]
 
 
 def new_api(backend):
     su.quiet()
-    return api_class(backend)() if backend == "duckdb" else api_class(backend)(":memory:")
+    return api_class(backend)()
 
 
 # ------------------------------------------------------------------------------------------
@@ -315,7 +359,8 @@ def gen_config(rng, backend, link_type, retain, idx):
            "prefix": rng.choice([[], ["prob"], ["u"], ["u", "prob"]]),
            "em_col": rng.choice(["first_name", "dob"]),
            "new_city": rng.choice(["a", "b"]),
-           "later": rng.choice(["deterministic_link", "compare_two_records", "find_matches_to_new_records"])}
+           "later": rng.choice(["deterministic_link", "compare_two_records", "find_matches_to_new_records"]),
+           "cache_later": rng.choice(["compute_tf_table", "register_term_frequency_lookup"])}
     return cfg
 
 
@@ -379,6 +424,7 @@ def labels_rows(cfg):
 
 
 REC1 = {"unique_id": 100, "first_name": "ann", "surname": "kim", "dob": "1990", "city": "a", "cluster": 1}
+TF_LOOKUP = [{"first_name": n, "tf_first_name": t} for n, t in zip(FN, (0.3, 0.25, 0.2, 0.1, 0.1, 0.05))]
 REC2 = {"unique_id": 101, "first_name": "ann", "surname": "kin", "dob": "1990", "city": "a", "cluster": 1}
 
 
@@ -386,14 +432,30 @@ def _labels(lk, cfg):
     return lk.table_management.register_labels_table(pd.DataFrame(labels_rows(cfg)), overwrite=True)
 
 
+def _existing_file():
+    d = tempfile.TemporaryDirectory(prefix="c08_")
+    path = os.path.join(d.name, "model.json")
+    open(path, "w").write("{}")
+    return {"tmp": d, "path": path}
+
+
+def cluster_multi(lk, cfg, aux):
+    from splink.internals.clustering import cluster_pairwise_predictions_at_multiple_thresholds
+    nodes = pd.DataFrame([{"unique_id": r["unique_id"]} for r in cfg["rows"]])
+    return cluster_pairwise_predictions_at_multiple_thresholds(
+        nodes, aux["pred"], lk._db_api, node_id_column_name="unique_id", match_probability_thresholds=[0.2, 0.6],
+        output_cluster_summary_stats=False)
+
+
 # scenario: name -> (operation, setup(lk,cfg)->aux, call(lk,cfg,aux), kind, backends)
 def scenarios():
     from splink import block_on
     S = {}
 
-    def add(name, op, call, setup=None, user=False, needs_retain=False, backends=("duckdb", "sqlite"), link_types=None):
+    def add(name, op, call, setup=None, user=False, needs_retain=False, backends=("duckdb", "sqlite"), link_types=None,
+            no_retain=False, heavy=False):
         S[name] = {"name": name, "op": op, "call": call, "setup": setup, "user": user, "needs_retain": needs_retain,
-                   "backends": backends, "link_types": link_types}
+                   "backends": backends, "link_types": link_types, "no_retain": no_retain, "heavy": heavy}
 
     add("estimate_u", "estimate_u_using_random_sampling",
         lambda lk, cfg, aux: lk.training.estimate_u_using_random_sampling(max_pairs=1e5, seed=1 if cfg["backend"] == "duckdb" else None))
@@ -402,7 +464,7 @@ def scenarios():
     add("em_populate_prior", "estimate_parameters_using_expectation_maximisation",
         lambda lk, cfg, aux: lk.training.estimate_parameters_using_expectation_maximisation(
             block_on(cfg["em_col"]), fix_u_probabilities=False,
-            populate_probability_two_random_records_match_from_trained_values=True), backends=("duckdb",))
+            populate_probability_two_random_records_match_from_trained_values=True), backends=("duckdb",), heavy=True)
     add("prob", "estimate_probability_two_random_records_match",
         lambda lk, cfg, aux: lk.training.estimate_probability_two_random_records_match([block_on("first_name", "surname")], recall=0.9))
     add("m_label", "estimate_m_from_label_column",
@@ -420,7 +482,7 @@ def scenarios():
         lambda lk, cfg, aux: lk.inference.compare_two_records(REC1, REC2))
     add("cluster", "cluster_pairwise_predictions_at_threshold",
         lambda lk, cfg, aux: lk.clustering.cluster_pairwise_predictions_at_threshold(aux["pred"], 0.5),
-        setup=lambda lk, cfg: {"pred": lk.inference.predict()})
+        setup=lambda lk, cfg: {"pred": lk.inference.predict()}, heavy=True)
     add("cluster_best_links", "cluster_using_single_best_links",
         lambda lk, cfg, aux: lk.clustering.cluster_using_single_best_links(aux["pred"], ["ta"], 0.5),
         setup=lambda lk, cfg: {"pred": lk.inference.predict()}, backends=("duckdb",), link_types=("link_only",))
@@ -436,6 +498,86 @@ def scenarios():
     add("errors_table", "prediction_errors_from_labels_table",
         lambda lk, cfg, aux: lk.evaluation.prediction_errors_from_labels_table(aux["labels"]),
         setup=lambda lk, cfg: {"labels": _labels(lk, cfg)}, needs_retain=True, backends=("duckdb",))
+
+    # ---- second wave: table management, remaining evaluation / clustering, misc, visualisation data
+    def s_pred(lk, cfg):
+        return {"pred": lk.inference.predict(), "tmp": tempfile.TemporaryDirectory(prefix="c08_")}
+
+    def s_pred_clusters(lk, cfg):
+        pred = lk.inference.predict()
+        return {"pred": pred, "clusters": lk.clustering.cluster_pairwise_predictions_at_threshold(pred, 0.5),
+                "tmp": tempfile.TemporaryDirectory(prefix="c08_")}
+
+    def s_frames(lk, cfg):
+        # pandas copies of the tables a user would register, computed on a separate linker
+        lk2, _api2, _ = build(cfg)
+        pred = lk2.inference.predict().as_pandas_dataframe()
+        from splink.internals.pipeline import CTEPipeline
+        from splink.internals.vertically_concatenate import compute_df_concat_with_tf
+        concat = compute_df_concat_with_tf(lk2, CTEPipeline()).as_pandas_dataframe()
+        lk.inference.predict()          # so that the linker under test has a warm cache
+        return {"pred_pd": pred, "concat_pd": concat}
+
+    add("compute_tf_table", "compute_tf_table", lambda lk, cfg, aux: lk.table_management.compute_tf_table("first_name"))
+    add("register_tf_lookup", "register_term_frequency_lookup",
+        lambda lk, cfg, aux: lk.table_management.register_term_frequency_lookup(pd.DataFrame(TF_LOOKUP), "first_name"),
+        setup=lambda lk, cfg: {"pred": lk.inference.predict()})
+    add("register_concat_with_tf", "register_table_input_nodes_concat_with_tf",
+        lambda lk, cfg, aux: lk.table_management.register_table_input_nodes_concat_with_tf(aux["concat_pd"], overwrite=True),
+        setup=s_frames)
+    add("register_predict", "register_table_predict",
+        lambda lk, cfg, aux: lk.table_management.register_table_predict(aux["pred_pd"]), setup=s_frames)
+    add("register_labels", "register_labels_table",
+        lambda lk, cfg, aux: lk.table_management.register_labels_table(pd.DataFrame(labels_rows(cfg))))
+    add("register_table", "register_table",
+        lambda lk, cfg, aux: lk.table_management.register_table(pd.DataFrame(labels_rows(cfg)), "c08_user_table", overwrite=True))
+    add("invalidate_cache", "invalidate_cache", lambda lk, cfg, aux: lk.table_management.invalidate_cache(), setup=s_pred)
+    add("delete_tables", "delete_tables_created_by_splink_from_db",
+        lambda lk, cfg, aux: lk.table_management.delete_tables_created_by_splink_from_db(), setup=s_pred)
+    add("unlinkables", "unlinkables_chart", lambda lk, cfg, aux: lk.evaluation.unlinkables_chart(as_dict=True), backends=("duckdb",))
+    add("labelling_tool", "labelling_tool_for_specific_record",
+        lambda lk, cfg, aux: lk.evaluation.labelling_tool_for_specific_record(
+            3, source_dataset=None if cfg["link_type"] == "dedupe_only" else "ta",
+            out_path=os.path.join(aux["tmp"].name, "lt.html"), overwrite=True),
+        setup=lambda lk, cfg: {"tmp": tempfile.TemporaryDirectory(prefix="c08_")}, backends=("duckdb",))
+    add("graph_metrics", "compute_graph_metrics",
+        lambda lk, cfg, aux: lk.clustering.compute_graph_metrics(aux["pred"], aux["clusters"], threshold_match_probability=0.5),
+        setup=s_pred_clusters, backends=("duckdb",))
+    add("cluster_multi", "cluster_pairwise_predictions_at_multiple_thresholds",
+        lambda lk, cfg, aux: cluster_multi(lk, cfg, aux), setup=s_pred, backends=("duckdb",), link_types=("dedupe_only",),
+        heavy=True)
+    add("save_model", "save_model_to_json",
+        lambda lk, cfg, aux: lk.misc.save_model_to_json(os.path.join(aux["tmp"].name, "m.json"), overwrite=True),
+        setup=lambda lk, cfg: {"tmp": tempfile.TemporaryDirectory(prefix="c08_")}, backends=("duckdb",))
+    add("query_sql", "query_sql", lambda lk, cfg, aux: lk.misc.query_sql("select 1 as x union all select 2 as x"))
+    add("histogram", "match_weights_histogram",
+        lambda lk, cfg, aux: lk.visualisations.match_weights_histogram(aux["pred"], as_dict=True), setup=s_pred, backends=("duckdb",))
+    add("comparison_viewer", "comparison_viewer_dashboard",
+        lambda lk, cfg, aux: lk.visualisations.comparison_viewer_dashboard(
+            aux["pred"], os.path.join(aux["tmp"].name, "cv.html"), overwrite=True, return_html_as_string=True),
+        setup=s_pred, needs_retain=True, backends=("duckdb",))
+    add("cluster_studio", "cluster_studio_dashboard",
+        lambda lk, cfg, aux: lk.visualisations.cluster_studio_dashboard(
+            aux["pred"], aux["clusters"], os.path.join(aux["tmp"].name, "cs.html"), overwrite=True, return_html_as_string=True),
+        setup=s_pred_clusters, needs_retain=True, backends=("duckdb",))
+    add("waterfall", "waterfall_chart",
+        lambda lk, cfg, aux: lk.visualisations.waterfall_chart(aux["recs"], as_dict=True),
+        setup=lambda lk, cfg: {"recs": lk.inference.predict().as_record_dict(limit=2)}, needs_retain=True, backends=("duckdb",))
+    add("tf_adjustment_chart", "tf_adjustment_chart",
+        lambda lk, cfg, aux: lk.visualisations.tf_adjustment_chart("first_name", as_dict=True), backends=("duckdb",))
+    add("parameter_estimates", "parameter_estimate_comparisons_chart",
+        lambda lk, cfg, aux: lk.visualisations.parameter_estimate_comparisons_chart(as_dict=True), backends=("duckdb",))
+    add("match_weights_chart", "match_weights_chart",
+        lambda lk, cfg, aux: lk.visualisations.match_weights_chart(as_dict=True), backends=("duckdb",))
+    add("accuracy_column_roc", "accuracy_analysis_from_labels_column",
+        lambda lk, cfg, aux: lk.evaluation.accuracy_analysis_from_labels_column(
+            "cluster", output_type="roc", match_weight_round_to_nearest=0.5), needs_retain=True, backends=("duckdb",))
+    add("accuracy_table_precision_recall", "accuracy_analysis_from_labels_table",
+        lambda lk, cfg, aux: lk.evaluation.accuracy_analysis_from_labels_table(aux["labels"], output_type="precision_recall"),
+        setup=lambda lk, cfg: {"labels": _labels(lk, cfg)}, needs_retain=True, backends=("duckdb",))
+    add("errors_column_fn_only", "prediction_errors_from_labels_column",
+        lambda lk, cfg, aux: lk.evaluation.prediction_errors_from_labels_column("cluster", include_false_positives=False),
+        needs_retain=True, backends=("duckdb",))
 
     # ---- user-level failures
     add("U:em_no_pairs", "estimate_parameters_using_expectation_maximisation",
@@ -465,6 +607,29 @@ def scenarios():
     add("U:accuracy_bad_output_type", "accuracy_analysis_from_labels_column",
         lambda lk, cfg, aux: lk.evaluation.accuracy_analysis_from_labels_column("cluster", output_type="no_such_type"),
         user=True, needs_retain=True, backends=("duckdb",))
+    add("U:register_table_exists", "register_table",
+        lambda lk, cfg, aux: lk.table_management.register_table(pd.DataFrame(labels_rows(cfg)), "c08_user_table"),
+        setup=lambda lk, cfg: {"t": lk.table_management.register_table(pd.DataFrame(labels_rows(cfg)), "c08_user_table")}, user=True)
+    add("U:tf_lookup_already_registered", "register_term_frequency_lookup",
+        lambda lk, cfg, aux: lk.table_management.register_term_frequency_lookup(pd.DataFrame(TF_LOOKUP[:3]), "first_name"),
+        setup=lambda lk, cfg: {"t": lk.table_management.register_term_frequency_lookup(pd.DataFrame(TF_LOOKUP), "first_name")}, user=True)
+    add("U:compute_tf_table_bad_column", "compute_tf_table",
+        lambda lk, cfg, aux: lk.table_management.compute_tf_table("no_such_column"), user=True)
+    add("U:query_sql_bad_output_type", "query_sql",
+        lambda lk, cfg, aux: lk.misc.query_sql("select 1 as x", output_type="no_such_type"), user=True)
+    add("U:query_sql_bad_sql", "query_sql", lambda lk, cfg, aux: lk.misc.query_sql("select no_such_col from no_such_table"), user=True)
+    add("U:save_model_existing_path", "save_model_to_json",
+        lambda lk, cfg, aux: lk.misc.save_model_to_json(aux["path"]),
+        setup=lambda lk, cfg: _existing_file(), user=True, backends=("duckdb",))
+    add("U:waterfall_without_retain", "waterfall_chart",
+        lambda lk, cfg, aux: lk.visualisations.waterfall_chart(aux["recs"], as_dict=True),
+        setup=lambda lk, cfg: {"recs": lk.inference.predict().as_record_dict(limit=2)}, user=True, backends=("duckdb",),
+        no_retain=True)
+    add("U:graph_metrics_without_threshold", "compute_graph_metrics",
+        lambda lk, cfg, aux: lk.clustering.compute_graph_metrics(aux["pred"], aux["pred"]),
+        setup=lambda lk, cfg: {"pred": lk.inference.predict()}, user=True, backends=("duckdb",))
+    add("U:tf_adjustment_chart_bad_column", "tf_adjustment_chart",
+        lambda lk, cfg, aux: lk.visualisations.tf_adjustment_chart("surname", as_dict=True), user=True, backends=("duckdb",))
     add("U:cluster_threshold_without_probability", "cluster_pairwise_predictions_at_threshold",
         lambda lk, cfg, aux: lk.clustering.cluster_pairwise_predictions_at_threshold(aux["det"], 0.5),
         setup=lambda lk, cfg: {"det": lk.inference.deterministic_link()}, user=True)
@@ -509,6 +674,9 @@ def snapshot(lk):
         "FRetainMatching": bool(s._retain_matching_columns),
         "FRetainIntermediate": bool(s._retain_intermediate_calculation_columns),
         "FSessions": len(lk._em_training_sessions), "FOther": other,
+        # named cache entries that are not derived by Splink itself (registered lookups / predictions / concat)
+        "FCache": sorted([str(k), str(getattr(d, "physical_name", None))] for k, d in lk._intermediate_table_cache.items()
+                         if not getattr(d, "created_by_splink", False)),
         "_json": json.dumps(model, sort_keys=True, default=str),
     }
 
@@ -579,6 +747,12 @@ def later_ops(lk, cfg):
         res[which] = canon_rows(lk.inference.compare_two_records(REC1, REC2))
     else:
         res[which] = canon_rows(lk.inference.find_matches_to_new_records([REC1], blocking_rules=[block_on("dob")]))
+    # cache-sensitive: what the table cache serves must be what a linker that never made the failed call serves
+    if cfg.get("cache_later", "compute_tf_table") == "compute_tf_table":
+        res["compute_tf_table"] = canon_rows(lk.table_management.compute_tf_table("first_name"))
+    else:
+        lk.table_management.register_term_frequency_lookup(pd.DataFrame(TF_LOOKUP), "first_name", overwrite=True)
+    res["predict_after_cache_op"] = canon_rows(lk.inference.predict())
     return res
 
 
